@@ -122,7 +122,12 @@ class Case:
                 P["mtag.extents"] = lambda ff: self.block(ff).multi_tags[1].extents
             b.tags[0].create_feature(tgt, rng.choice(list(nix.LinkType)))
             P["tag.feature.data"] = lambda ff: self.block(ff).tags[0].features[0].data
-            b.multi_tags[1].create_feature(tgt, nix.LinkType.Untagged)
+            if rng.random() < 0.5:
+                b.multi_tags[1].create_feature(tgt, nix.LinkType.Untagged)
+            else:
+                # a feature that pointed to a data FRAME first and is re-pointed to the array: still an alias of the array
+                ft = b.multi_tags[1].create_feature(b.data_frames["same"], nix.LinkType.Untagged)
+                ft.data = tgt
             P["mtag.feature.data"] = lambda ff: self.block(ff).multi_tags[1].features[0].data
         elif kind == "DataFrame":
             tgt = b.data_frames["same"]
@@ -131,7 +136,12 @@ class Case:
             for gi in range(rng.randint(1, 3)):
                 groups(f)[gi].data_frames.append(tgt)
                 P["group%d.data_frames" % gi] = lambda ff, gi=gi: groups(ff)[gi].data_frames[tid]
-            b.tags[1].create_feature(tgt, nix.LinkType.Indexed)
+            if rng.random() < 0.5:
+                b.tags[1].create_feature(tgt, nix.LinkType.Indexed)
+            else:
+                # the other way round: first an array, then re-pointed to the frame
+                ft = b.tags[1].create_feature(b.data_arrays["same"], nix.LinkType.Indexed)
+                ft.data = tgt
             P["tag.feature.data"] = lambda ff: self.block(ff).tags[1].features[0].data
         elif kind in ("Tag", "MultiTag"):
             cname = "tags" if kind == "Tag" else "multi_tags"
